@@ -1,1 +1,2 @@
 import RProofs.BSet
+import RProofs.BSetQuery
